@@ -166,7 +166,8 @@ def main():
       "non power-of-two constant alpha: value compared within 2^-22 relative (two float32 roundings), not exactly",
       "hypothesis of the property: finite input with |x| < 2^24 steps; inputs outside are run but not judged",
   ]
-  return rep.finish(vlib.TRUSTED_COMMON + ["model Quant/Fixed.v is hand-written; tie = exact comparison with the implementation on every generated case"])
+  return rep.finish(vlib.TRUSTED_COMMON + ["translators tools/translate/{reportgen,lingen,qbitsgen,relucallgen}.py (Python ast interpreters, fail closed) regenerate coq/gen/{ReportGen,LinGen,QBitsGen,ReluCallGen}.v from qkeras/quantizers.py; Link/{ReportLink,LinLink,QBitsLink,ReluCallLink}.v prove them equal to the model; stochastic rounding, the sigmoid option and data-dependent scales are outside the translated paths",
+                                          "model Quant/Fixed.v is hand-written; tie = exact comparison with the implementation on every generated case"])
 
 
 if __name__ == "__main__":
